@@ -34,11 +34,11 @@ type HOp struct {
 
 // Plan of one audit session, used by the oracles (expected identity is known by construction).
 type SessPlan struct {
-	Sid        string `json:"sid"`
-	PID        int    `json:"pid"`
-	HasLoginRec bool  `json:"has_login_rec"`
-	LoginID    int    `json:"login_id"` // -1: no SSH login for this session (cron, console, su)
-	WF         bool   `json:"wf"`       // satisfies the uniqueness / reuse discipline of C01/C02/C09
+	Sid         string `json:"sid"`
+	PID         int    `json:"pid"`
+	HasLoginRec bool   `json:"has_login_rec"`
+	LoginID     int    `json:"login_id"` // -1: no SSH login for this session (cron, console, su)
+	WF          bool   `json:"wf"`       // satisfies the uniqueness / reuse discipline of C01/C02/C09
 }
 
 type History struct {
